@@ -95,6 +95,10 @@ def _work(job):
                 if verdict == 'unsat':
                     res = {'name': name, 'backend': 'cvc5', 'status': 'discharged', 'time': round(time.time() - t0, 3),
                            'z3': res.get('reason', '')}
+                elif verdict == 'sat':
+                    # refuted by the second back end (it answers sat only with a model in hand); no model is translated
+                    res = {'name': name, 'backend': 'cvc5', 'status': 'failed', 'time': round(time.time() - t0, 3),
+                           'model': {}, 'model_text': 'cvc5: sat (model not translated)', 'z3': res.get('reason', '')}
                 else:
                     res['cvc5'] = (verdict or err)[:120]
             except subprocess.TimeoutExpired:
